@@ -250,12 +250,59 @@ Lemma reward_fatal_den_zero rden cden bal ts factor scale num pool rate :
 Proof. intros H. unfold reward. rewrite qquo_ok by exact H. reflexivity. Qed.
 
 (* ---------- (b') TransferFromCommon(escrow = true) ---------- *)
+(* totality AND conservation of the repaired function: no premise on the pool *)
+Lemma tfc_ok cden bal ts pool amount rate :
+  cden <> 0 -> rate <= cden ->
+  transfer_from_common_escrow cden bal ts pool amount rate = Ok None /\ N.min pool amount = 0 \/
+  exists rem com sh gen,
+    transfer_from_common_escrow cden bal ts pool amount rate = Ok (Some (rem, com, sh, gen)) /\
+    rem + com + gen = N.min pool amount.
+Proof.
+  intros Hc Hr. unfold transfer_from_common_escrow.
+  set (t := N.min pool amount).
+  destruct (t =? 0) eqn:Et; b2p; [left; split; [reflexivity|exact Et]|]. right.
+  destruct (ts =? 0) eqn:Ets; b2p.
+  - unfold shares_for_stake. rewrite (proj2 (N.eqb_eq ts 0) Ets). cbn [bind].
+    do 4 eexists. split; [reflexivity|lia].
+  - destruct (commission_ok cden rate t Hc Hr) as [Hcom Hle]. rewrite Hcom. cbn [bind].
+    set (com := t * rate / cden) in *.
+    destruct (com =? 0) eqn:Ec; b2p.
+    + do 4 eexists. split; [reflexivity|lia].
+    + destruct (bal + (t - com) =? 0) eqn:Eb; b2p.
+      * cbn [negb andb].
+        do 4 eexists. split; [reflexivity|lia].
+      * cbn [andb]. unfold shares_for_stake. rewrite (proj2 (N.eqb_neq ts 0) Ets).
+        rewrite (proj2 (N.eqb_neq _ 0) Eb). rewrite qquo_ok by exact Eb. cbn [bind].
+        do 4 eexists. split; [reflexivity|lia].
+Qed.
+
 Lemma tfc_total cden bal ts pool amount rate :
   cden <> 0 -> rate <= cden ->
-  (ts = 0 \/ bal <> 0 \/ rate < cden) ->
   is_fatal (transfer_from_common_escrow cden bal ts pool amount rate) = false.
 Proof.
-  intros Hc Hr Hcase. unfold transfer_from_common_escrow.
+  intros Hc Hr. destruct (tfc_ok cden bal ts pool amount rate Hc Hr) as [[H _]|[a [b [c [d [H _]]]]]];
+    rewrite H; reflexivity.
+Qed.
+
+(* common pool decrease = escrow increase (rem + com) + general balance increase (gen) *)
+Lemma tfc_conserves cden bal ts pool amount rate rem com sh gen :
+  cden <> 0 -> rate <= cden ->
+  transfer_from_common_escrow cden bal ts pool amount rate = Ok (Some (rem, com, sh, gen)) ->
+  rem + com + gen = N.min pool amount /\ N.min pool amount <= pool.
+Proof.
+  intros Hc Hr H. split; [|lia].
+  destruct (tfc_ok cden bal ts pool amount rate Hc Hr) as [[H' _]|[a [b [c [d [H' Hs]]]]]].
+  - rewrite H in H'. discriminate.
+  - rewrite H in H'. injection H' as -> -> -> ->. exact Hs.
+Qed.
+
+(* ---- the ORIGINAL function (before c3a21ab) ---- *)
+Lemma tfc_original_total cden bal ts pool amount rate :
+  cden <> 0 -> rate <= cden ->
+  (ts = 0 \/ bal <> 0 \/ rate < cden) ->
+  is_fatal (transfer_from_common_escrow_original cden bal ts pool amount rate) = false.
+Proof.
+  intros Hc Hr Hcase. unfold transfer_from_common_escrow_original.
   set (t := N.min pool amount).
   destruct (t =? 0) eqn:Et; [reflexivity|]. b2p.
   destruct (ts =? 0) eqn:Ets; b2p.
@@ -270,27 +317,50 @@ Proof.
 Qed.
 
 (* an escrow account slashed to zero (shares outstanding, balance 0) with a
-   100 % commission rate makes TransferFromCommon(escrow=true) fail *)
-Lemma tfc_fatal_full_commission cden ts pool amount :
+   100 % commission rate made the ORIGINAL TransferFromCommon(escrow=true) fail;
+   the repaired one leaves the commission in the general balance *)
+Lemma tfc_original_fatal_full_commission cden ts pool amount :
   cden <> 0 -> ts <> 0 -> pool <> 0 -> amount <> 0 ->
-  transfer_from_common_escrow cden 0 ts pool amount cden = Fatal.
+  transfer_from_common_escrow_original cden 0 ts pool amount cden = Fatal /\
+  transfer_from_common_escrow cden 0 ts pool amount cden = Ok (Some (0, 0, 0, N.min pool amount)).
 Proof.
-  intros Hc Hts Hp Ha. unfold transfer_from_common_escrow.
+  intros Hc Hts Hp Ha. unfold transfer_from_common_escrow_original, transfer_from_common_escrow.
   set (t := N.min pool amount).
   assert (Ht : t <> 0) by (unfold t; lia).
   rewrite (proj2 (N.eqb_neq t 0) Ht), (proj2 (N.eqb_neq ts 0) Hts).
   destruct (commission_ok cden cden t Hc (N.le_refl _)) as [Hcom _]. rewrite Hcom. cbn [bind].
   rewrite N.div_mul by exact Hc.
   rewrite (proj2 (N.eqb_neq t 0) Ht).
-  unfold shares_for_stake. rewrite (proj2 (N.eqb_neq ts 0) Hts).
-  replace (0 + (t - t)) with 0 by lia. reflexivity.
+  replace (0 + (t - t)) with 0 by lia. rewrite N.sub_diag.
+  split.
+  - unfold shares_for_stake. rewrite (proj2 (N.eqb_neq ts 0) Hts). reflexivity.
+  - rewrite N.eqb_refl. cbn [negb andb]. reflexivity.
 Qed.
 
-Lemma tfc_refuted :
+Lemma tfc_original_refuted :
   exists cden bal ts pool amount rate,
     cden <> 0 /\ rate <= cden /\
-    transfer_from_common_escrow cden bal ts pool amount rate = Fatal.
+    transfer_from_common_escrow_original cden bal ts pool amount rate = Fatal /\
+    is_fatal (transfer_from_common_escrow cden bal ts pool amount rate) = false.
 Proof. exists 100000, 0, 5, 10, 10, 100000. repeat split; try lia; reflexivity. Qed.
+
+(* outside the dead-pool case the repair changes nothing *)
+Lemma tfc_original_agrees cden bal ts pool amount rate :
+  cden <> 0 -> rate <= cden -> (ts = 0 \/ bal <> 0 \/ rate < cden) ->
+  transfer_from_common_escrow_original cden bal ts pool amount rate =
+  transfer_from_common_escrow cden bal ts pool amount rate.
+Proof.
+  intros Hc Hr Hcase. unfold transfer_from_common_escrow_original, transfer_from_common_escrow.
+  set (t := N.min pool amount).
+  destruct (t =? 0) eqn:Et; [reflexivity|]. b2p.
+  destruct (ts =? 0) eqn:Ets; [reflexivity|]. b2p.
+  destruct (commission_ok cden rate t Hc Hr) as [Hcom Hle]. rewrite Hcom. cbn [bind].
+  destruct (t * rate / cden =? 0) eqn:Ec; [reflexivity|].
+  assert (Hb : bal + (t - t * rate / cden) <> 0).
+  { destruct Hcase as [H|[H|H]]; [contradiction|lia|].
+    assert (t * rate / cden < t) by (apply mul_frac_lt; assumption). lia. }
+  rewrite (proj2 (N.eqb_neq _ 0) Hb). cbn [andb]. reflexivity.
+Qed.
 
 (* ---------- (d) slashing and debonding ---------- *)
 Lemma slash_pool_ok bal amount total :
